@@ -1,5 +1,7 @@
 package layerb
 
+import "fmt"
+
 // FamilyOddities: well-typed programs built around rarely used corners of the Go type system and of converter
 // declarations. No outcome is prescribed (goverter may generate or reject with a diagnostic): they feed the
 // crash gate of C13 - the generator must terminate without panicking - and, where generation succeeds, the
@@ -59,6 +61,22 @@ func FamilyOddities() []*Conv {
 	add("map_path_through_func", "source PFXIn", "PFXOut", "type PFXIn struct{ F func() struct{ V int } }\ntype PFXOut struct{ V int }\n", nil, []string{"map F.V V"})
 	add("automap_non_struct", "source PFXIn", "PFXOut", "type PFXIn struct {\n\tL []int\n\tN int\n}\ntype PFXOut struct{ N int }\n", nil, []string{"autoMap L"})
 	add("automap_self_pointer", "source PFXIn", "PFXOut", "type PFXIn struct {\n\tSelf *PFXIn\n\tN int\n}\ntype PFXOut struct {\n\tN int\n\tMissing int\n}\n", nil, []string{"autoMap Self"})
+	for i, t := range []string{"*string", "**PFXAddr", "*[]PFXAddr", "*map[string]PFXAddr", "*PFXZip", "[]PFXAddr", "func() PFXAddr", "chan PFXAddr"} {
+		add(fmt.Sprintf("automap_path_to_non_struct_%d", i), "source PFXIn", "PFXOut",
+			"type PFXAddr struct{ City string }\ntype PFXZip int\ntype PFXIn struct {\n\tName string\n\tAddress "+t+"\n}\ntype PFXOut struct {\n\tName string\n\tCity string\n}\n", nil, []string{"autoMap Address"})
+	}
+	opt := "type PFXOption func(*PFXOut)\n"
+	add("variadic_context_parameter", "source PFXIn, ctxOpts ...PFXOption", "PFXOut", io+opt, []string{"arg:context:regex ^ctx"}, nil)
+	add("variadic_context_parameter_nested", "source []PFXIn, ctxOpts ...PFXOption", "[]PFXOut", io+opt+"func PFXOne(source PFXIn, ctxOpts ...PFXOption) PFXOut { return PFXOut{} }\n", []string{"arg:context:regex ^ctx", "extend PFXOne"}, nil)
+	add("variadic_custom_function_source", "source PFXW", "PFXWT", "type PFXW struct{ L []int }\ntype PFXWT struct{ L string }\nfunc PFXJoin(xs ...int) string { return \"\" }\n", []string{"extend PFXJoin"}, nil)
+	// update methods in corners
+	add("update_pointer_source_whole_source_func", "source *PFXIn, target *PFXOut", "", "type PFXIn struct{ First, Last string }\ntype PFXOut struct {\n\tFull string\n\tFirst string\n}\nfunc PFXFull(in PFXIn) string { return in.First }\n", nil, []string{"update target", "map . Full | PFXFull"})
+	add("update_pointer_source_whole_source_field", "source *PFXIn, target *PFXOut", "", "type PFXIn struct{ First, Last string }\ntype PFXOut struct {\n\tWhole PFXIn\n\tFirst string\n}\n", nil, []string{"update target", "map . Whole"})
+	add("update_ignorezero_struct_field_not_comparable", "source PFXIn, target *PFXOut", "", "type PFXN struct{ L []int }\ntype PFXIn struct{ N PFXN }\ntype PFXOut struct{ N PFXN }\n", nil, []string{"update target", "update:ignoreZeroValueField:struct"})
+	add("ignoremissing_inline_struct_map_value", "source map[string]struct{ A int }", "map[string]struct{ B int }", "", []string{"ignoreMissing"}, nil)
+	add("embedded_alias_field_in_unnamed_struct", "source struct{ PFXAlias }", "struct{ PFXAlias }", "type PFXBase struct{ V int }\ntype PFXAlias = PFXBase\n", nil, nil)
+	add("unexported_named_type_in_field", "source PFXIn", "PFXOut", "type pfxInner struct{ V int }\ntype PFXIn struct{ In pfxInner }\ntype PFXOut struct{ In pfxInner }\n", nil, nil)
+	add("unexported_named_type_in_slice", "source []pfxInner2", "[]pfxInner2", "type pfxInner2 struct{ V []int }\n", nil, nil)
 	add("enum_on_func_constants", "source PFXE1", "PFXE2", "type PFXE1 int\ntype PFXE2 string\n\nconst (\n\tPFXE1A PFXE1 = iota\n\tPFXE1B\n)\n\nconst PFXE2A PFXE2 = \"a\"\n", []string{"enum:unknown @ignore"}, nil)
 	return out
 }
